@@ -10,9 +10,9 @@ CLAIMED = {
    note="Kani 0.68/CBMC 6.11; stubs: std::fmt::format, hex::encode (error text). Two known findings (negative lovelace wraps, negative token dropped) are recorded because the repository's own tests rely on them.",
    design="§3 C02"),
  "C05": dict(
-   technique="bounded model checking of the fee arithmetic (Kani/CBMC)",
-   text="The size fee is the linear function a*len+b+margin in mathematical integers for every len<=16384, a<=1000, b<=10^6 and margin; slot/time conversions are affine without wrap. Decided by CBMC over the compiled code. The resolve-loop fixed point is not yet covered.",
-   note="Kani/CBMC; RandomState::new stubbed to construct an empty cost-model map.",
+   technique="bounded model checking of the fee arithmetic (Kani/CBMC) + symbolic execution of the MIR of apply_fees, Compiler::compile and the resolve loop (mirsym -> z3) against an uninterpreted compiler function",
+   text="(a) the size fee is a*len+b+margin in mathematical integers for every len<=16384, a<=1000, b<=10^6 and margin (CBMC on the compiled code); (b) for every u64 fee the body fee written by the real compile_tx_body is the applied fee and a fee-dependent output is computed with the same fee; (c) Compiler::compile reports the size fee of the payload it returns; (d) resolve_tx / eval_pass executed from MIR against an uninterpreted compiler F: every pass is evaluated with the previous pass's reported fee, a missing argument is refused before any pass, and for every F whose fee sequence settles by pass max_optimize_rounds + 2 the returned transaction is a fixed point (body fee == reported fee).",
+   note="In (d) the compiler is an uninterpreted function (payload injective in the applied fee); templates oscillating beyond the round cap are outside the claim. Kani: RandomState::new stubbed to build an empty cost-model map.",
    design="§3 C05"),
  "C09": dict(
    technique="bounded model checking of the Plutus Data conversions (Kani/CBMC)",
